@@ -1,0 +1,155 @@
+//go:build verif
+
+// Package vhook provides trace/fault-injection points for runtime
+// verification. With the "verif" build tag each point
+//
+//   - appends one JSON line {"seq","pid","t","name","kv"} to the file named by
+//     the environment variable VERIF_TRACE (if set). Sequence number assignment
+//     and the write happen under one mutex, so that the order of lines of one
+//     process is a linearisation of its hook calls.
+//   - applies the actions configured for the point in VERIF_POINTS, a ';'
+//     separated list of name=action[@k][~p] entries. Actions: sleep(ms), yield,
+//     kill (SIGKILL self), exit(code), wait(file) (block until file exists),
+//     touch(file). "@k" restricts the action to the k-th hit of the point,
+//     "~p" applies it with probability p (PRNG seeded by VERIF_POINTS_SEED).
+package vhook
+
+import (
+	"encoding/json"
+	"fmt"
+	"math/rand"
+	"os"
+	"runtime"
+	"strconv"
+	"strings"
+	"sync"
+	"syscall"
+	"time"
+)
+
+// Enabled reports whether the hooks are compiled in.
+const Enabled = true
+
+type action struct {
+	kind string
+	arg  string
+	at   int
+	prob float64
+}
+
+var (
+	mu      sync.Mutex
+	once    sync.Once
+	traceFd *os.File
+	seq     uint64
+	actions map[string][]action
+	hits    map[string]int
+	rng     *rand.Rand
+)
+
+func setup() {
+	hits = make(map[string]int)
+	actions = make(map[string][]action)
+	if path := os.Getenv("VERIF_TRACE"); path != "" {
+		fd, err := os.OpenFile(path, os.O_CREATE|os.O_WRONLY|os.O_APPEND, 0666)
+		if err == nil {
+			traceFd = fd
+		}
+	}
+	seed := int64(1)
+	if s := os.Getenv("VERIF_POINTS_SEED"); s != "" {
+		if v, err := strconv.ParseInt(s, 10, 64); err == nil {
+			seed = v
+		}
+	}
+	rng = rand.New(rand.NewSource(seed))
+	for _, ent := range strings.Split(os.Getenv("VERIF_POINTS"), ";") {
+		ent = strings.TrimSpace(ent)
+		eq := strings.Index(ent, "=")
+		if eq <= 0 {
+			continue
+		}
+		name, spec := ent[:eq], ent[eq+1:]
+		a := action{prob: 1}
+		if i := strings.LastIndex(spec, "~"); i >= 0 {
+			if p, err := strconv.ParseFloat(spec[i+1:], 64); err == nil {
+				a.prob = p
+			}
+			spec = spec[:i]
+		}
+		if i := strings.LastIndex(spec, "@"); i >= 0 {
+			if k, err := strconv.Atoi(spec[i+1:]); err == nil {
+				a.at = k
+			}
+			spec = spec[:i]
+		}
+		a.kind = spec
+		if i := strings.Index(spec, "("); i > 0 && strings.HasSuffix(spec, ")") {
+			a.kind = spec[:i]
+			a.arg = spec[i+1 : len(spec)-1]
+		}
+		actions[name] = append(actions[name], a)
+	}
+}
+
+// Point marks a named point of execution.
+func Point(name string, kv ...interface{}) {
+	once.Do(setup)
+
+	mu.Lock()
+	seq++
+	hits[name]++
+	hit := hits[name]
+	var todo []action
+	for _, a := range actions[name] {
+		if a.at != 0 && a.at != hit {
+			continue
+		}
+		if a.prob < 1 && rng.Float64() >= a.prob {
+			continue
+		}
+		todo = append(todo, a)
+	}
+	if traceFd != nil {
+		strs := make([]string, len(kv))
+		for i, v := range kv {
+			strs[i] = fmt.Sprintf("%v", v)
+		}
+		line, _ := json.Marshal(map[string]interface{}{
+			"seq": seq, "pid": os.Getpid(), "t": time.Now().UnixNano(),
+			"name": name, "hit": hit, "kv": strs,
+		})
+		traceFd.Write(append(line, '\n'))
+	}
+	mu.Unlock()
+
+	for _, a := range todo {
+		switch a.kind {
+		case "sleep":
+			ms, _ := strconv.ParseFloat(a.arg, 64)
+			time.Sleep(time.Duration(ms * float64(time.Millisecond)))
+		case "yield":
+			runtime.Gosched()
+		case "kill":
+			syscall.Kill(os.Getpid(), syscall.SIGKILL)
+			select {}
+		case "exit":
+			code, _ := strconv.Atoi(a.arg)
+			os.Exit(code)
+		case "wait":
+			for {
+				if _, err := os.Stat(a.arg); err == nil {
+					break
+				}
+				time.Sleep(time.Millisecond)
+			}
+		case "touch":
+			if fd, err := os.OpenFile(a.arg, os.O_CREATE|os.O_WRONLY, 0666); err == nil {
+				fd.Close()
+			}
+		}
+	}
+}
+
+// ID returns an identifier for the object p points to.
+func ID(p interface{}) string { return fmt.Sprintf("%p", p) }
